@@ -196,3 +196,45 @@ func VH_C18_sandbox() {
 	s.luapool.Put(L2)
 	vobs("sandbox", p[0])
 }
+
+// VH_C18_args_do_not_survive: whatever a script does to its KEYS / ARGV tables (append, assign, with or without
+// keys and arguments of its own), the next call on the same pooled interpreter - by any client, of any kind - sees
+// exactly its own keys and arguments: the same reply as on a fresh server.
+//verif:cfg b_first_call=EVAL|EVALRO|EVALNA_x_0..1_keys_x_0..1_args_x_4_scripts(insert_into_KEYS,_assign_ARGV,_both,_read_only) b_second_call=EVAL|EVALRO_x_0..1_keys_x_0..1_args ignorego=1
+func VH_C18_args_do_not_survive() {
+	mk := func() *Server {
+		s := vhServer()
+		s.luascripts = s.newScriptMap()
+		s.luapool = s.newPool()
+		return s
+	}
+	s := mk()
+	mut := [4]string{
+		"table.insert(KEYS, 'leak') return #KEYS",
+		"ARGV[1] = 'leak' ARGV[2] = 'leak2' return #ARGV",
+		"KEYS[#KEYS+1] = 'k' ARGV[#ARGV+1] = 'a' KEYS.x = 'y' return 1",
+		"return #KEYS + #ARGV",
+	}[vchoose(4)]
+	call := func(srv *Server, cmd, script string, nk, na int) (string, error) {
+		args := []string{cmd, script, vhDigits[nk]}
+		for i := 0; i < nk; i++ {
+			args = append(args, "key"+vhDigits[i])
+		}
+		for i := 0; i < na; i++ {
+			args = append(args, "arg"+vhDigits[i])
+		}
+		r, _, err := vhDo(srv, args...)
+		return vhRender(r), err
+	}
+	c1 := [3]string{"EVAL", "EVALRO", "EVALNA"}[vchoose(3)]
+	_, err := call(s, c1, mut, vchoose(2), vchoose(2))
+	vassert("C18.K2.first_call_runs", err == nil)
+	probe := "return {#KEYS, #ARGV, KEYS[1] or 'nil', KEYS[2] or 'nil', ARGV[1] or 'nil', ARGV[2] or 'nil', KEYS.x or 'nil', tostring(KEYS == ARGV)}"
+	c2 := [2]string{"EVAL", "EVALRO"}[vchoose(2)]
+	nk, na := vchoose(2), vchoose(2)
+	got, err2 := call(s, c2, probe, nk, na)
+	want, err3 := call(mk(), c2, probe, nk, na)
+	vassert("C18.K2.second_call_runs", err2 == nil && err3 == nil)
+	vobs("survive", c1, c2, nk, na, got)
+	vassert("C18.K2.next_call_sees_only_its_own_keys_and_arguments", got == want)
+}
